@@ -131,7 +131,8 @@ def distribution(cases, obs):
 
 TECHNIQUE = "Coq invariant proof over an executable keeper + directory model; three-clause retention oracle proved on the model and evaluated on a real LatestStatesKeeper over real directories"
 LEVEL_TEXT = ("Machine-checked proof that for every max_keep, every set of pre-existing states (any distinct mtimes), unrelated entries and every history of appends / cleanups / foreign removals and creations "
-              "(with pairwise distinct state names), after each cleanup none of the max_keep most recently saved states was deleted, every older tracked state is gone, and nothing else was touched. "
+              "(with pairwise distinct state names), after each cleanup none of the max_keep most recently saved states was deleted, every older tracked state is gone, and nothing else was touched; the start-up scan is a permutation of the matching entries sorted oldest first and, with distinct mtimes, "
+              "independent of the listing order; one cleanup leaves exactly the max_keep newest tracked states, reports only older tracked states that existed and are gone, and an untracked entry survives every keeper operation. "
               "Tied to /repo by running the real keeper on real directories with controlled mtimes and comparing listings and return values inside Coq; the same oracle is evaluated on the implementation's listings.")
 LEVEL_NOTE = "Trusted: Coq kernel + vm_compute; coq/Model/Keeper.v; directory listing and os.utime in the runner; shutil.rmtree / glob semantics. Hypothesis names_ok (distinct state names, no foreign entry with a state's name)."
 DESIGN_REF = "DESIGN.md §4 C18"
